@@ -1070,7 +1070,7 @@ func main() {
 			"partition family: no ID occurs in two files. Overlap family: a feature held by several files has identical content in each, so a lookup has one right answer whichever file serves it; EachFeature emitting such a feature once per file and per-file back-references (FindReferences, relations/areas by feature, Traverse) are outside the statement and not judged there",
 			"a section where the single-file compact world itself differs from the model and the merged world equals the single-file world is counted, not reported (not a merge defect)",
 			"relations-by-feature and areas-by-point mean direct membership / a path of the area through the point, as one compact file answers (checked on the fly: disagreements of the single-file world with this model are counted)",
-			"deadlines are generous because the machine is shared; the space is sized by CPU time (quick about 8 CPU-minutes under load)",
+			"deadlines are generous because the machine is shared; the space is sized by CPU time (quick about 6-8 CPU-minutes of which the overlapping-files family about 1; thorough about 90 CPU-minutes of which the overlapping-files family about 45)",
 			"merging the files of an overlay build in an order other than the build order is a supported use (ReadWorld merges a file list in the order given)",
 		},
 		QuickDeadline: 20 * 60e9, ThoroughDeadline: 90 * 60e9, CaseTimeout: 600e9, Chunk: 4,
